@@ -405,10 +405,10 @@ def check_property(prop, spec, tier, seed, replay=None):
                      "variant": r.variant, "engine": r.engine, "args": r.args}
             if r.advisory:
                 advisory.append(entry)
-            elif prop in MEMORY_PROPS or kind == "miri":
+            elif case != "?" or kind == "miri" or prop in MEMORY_PROPS:
                 violations.append(entry)
             else:
-                inconclusive.append(f"{kind} report in {r.label} during '{case}': {text}")
+                inconclusive.append(f"{kind} report in {r.label} outside any recorded case: {text}")
         elif died:
             case = res.last_case or "?"
             rc = res.rc
@@ -421,7 +421,9 @@ def check_property(prop, spec, tier, seed, replay=None):
             tail = res.stderr_tail[-600:]
             if r.advisory:
                 advisory.append({"sig": f"died rc={rc}", "case": case, "detail": tail})
-            elif prop in MEMORY_PROPS and (signame in ("SIGSEGV", "SIGABRT", "SIGBUS", "SIGILL") or rc in (97, 98, 134, 139)):
+            elif case != "?" and (signame in ("SIGSEGV", "SIGABRT", "SIGBUS", "SIGILL", "SIGFPE") or rc in (97, 98, 101, 134, 139)):
+                # the process died while executing a recorded case of the crate under test:
+                # whatever the property, the operation did not do what the model does
                 sig = f"{op_of_case(case)}|crash:{signame or rc}"
                 violations.append({"prop": prop, "sig": sig, "case": case, "detail": f"child died rc={rc} {signame}: {tail}",
                                    "log": [], "variant": r.variant, "engine": r.engine, "args": r.args})
